@@ -8,9 +8,27 @@ import re
 
 import vlib
 
+# the proof modules are compiled by the builder until coq/_CoqProject lists them (then: MatFinal.vo)
 PROOF_MODULES = []
 OBLIGATIONS = [
-    # "C26/P_nonvacuous.v",
+    "C26/P_matrix_add_sound.v",
+    "C26/P_hadamard_product_sound.v",
+    "C26/P_matrix_mul_sound_guarded.v",
+    "C26/P_matrix_mul_zero_shape_refuted.v",
+    "C26/P_transpose_sound.v",
+    "C26/P_conjugate_matrix_sound.v",
+    "C26/P_size_sound.v",
+    "C26/P_trace_sound.v",
+    "C26/P_trace_error_sound.v",
+    "C26/P_is_zero_sound.v",
+    "C26/P_is_real_sound.v",
+    "C26/P_is_square_sound.v",
+    "C26/P_is_diagonal_sound.v",
+    "C26/P_is_symmetric_sound.v",
+    "C26/P_is_lower_sound.v",
+    "C26/P_is_upper_sound.v",
+    "C26/P_is_toeplitz_sound.v",
+    "C26/P_nonvacuous.v",
 ]
 
 # ------------------------------------------------------------------ generators
